@@ -370,7 +370,7 @@ def part_A(chk, binary, scratch, res_broken):
         r_cli, r_mr = dep_of(o_cli), dep_of(o_mr)
         m_cli, m_rip, m_mr, m_spec, flags = model[n]
         m_cli, m_rip, m_mr, m_spec = list(m_cli), list(m_rip), list(m_mr), list(m_spec)
-        f_multi, f_modonly, f_under, f_nested, f_mronly = [bool(x) for x in flags]
+        f_multi, f_modonly, f_nested, f_mronly = [bool(x) for x in flags]
         key = "%s abs=%d lv=%d n=%d nested=%d rel=%d" % (rec[0], rec[1], rec[2], len(rec[3]), c["nested"], not c["ab"])
         dist[key] = dist.get(key, 0) + 1
         chk.count_case((t.name, c["text"], c["edir"], c["idir"], c["cwd"]), nontrivial=bool(r_rip or (isinstance(r_cli, list) and r_cli)))
@@ -387,16 +387,15 @@ def part_A(chk, binary, scratch, res_broken):
             continue
         # oracle: the real resolvers against each other
         if r_cli != r_rip:
-            cls = [n_ for n_, f in (("import-last-segment", f_multi), ("mod-file-cli", f_modonly), ("relative-entry-underflow", f_under),
-                                    ("nested-base", f_nested)) if f]
-            listed = [x for x in cls if any(f["id"] == x and f.get("status") == "known" for f in chk.findings)]
-            if listed:
-                for x in listed:
+            cls = [n_ for n_, f in (("import-last-segment", f_multi), ("mod-file-cli", f_modonly), ("nested-base", f_nested)) if f]
+            lst = [x for x in cls if listed(chk, x)]
+            if lst:
+                for x in lst:
                     known_seen[x] = known_seen.get(x, 0) + 1
             else:
                 fails.append(dict(desc, why="CLI and LSP resolve this import to different files", cli=r_cli, lsp=r_rip, classes=cls))
         if r_mr != r_cli:
-            if f_mronly and any(f["id"] == "module-resolver-candidates" and f.get("status") == "known" for f in chk.findings):
+            if f_mronly and listed(chk, "module-resolver-candidates"):
                 known_seen["module-resolver-candidates"] = known_seen.get("module-resolver-candidates", 0) + 1
             else:
                 fails.append(dict(desc, why="ModuleResolver and the CLI resolve this import to different files", cli=r_cli, module_resolver=r_mr))
@@ -598,12 +597,12 @@ def part_B(chk, binary, scratch, res_broken):
                     fails.append(dict(desc, why="ModuleResolver and CLI load different files in a flat `from x import y` project"))
             if cli_deps != lsp_deps or (tuple(entry_r) in lsp_set):
                 dist["cli_lsp_sets_differ"] += 1
-                listed = all(any(f["id"] == x and f.get("status") == "known" for f in chk.findings)
-                             for x in ("import-last-segment", "mod-file-cli", "relative-entry-underflow", "nested-base", "lsp-entry-not-seen"))
-                if m_flag and listed:
+                all_listed = all(listed(chk, x) for x in ("import-last-segment", "mod-file-cli", "nested-base"))
+                if m_flag and all_listed and tuple(entry_r) not in lsp_set:
                     hits["collect-sets-differ (explained by a flagged import)"] = hits.get("collect-sets-differ (explained by a flagged import)", 0) + 1
                 else:
-                    fails.append(dict(desc, why="CLI and LSP load different dependency files and no import of a loaded file is in a listed class",
+                    fails.append(dict(desc, why=("the LSP loads the entry file as a dependency of itself" if tuple(entry_r) in lsp_set else
+                                                 "CLI and LSP load different dependency files and no import of a loaded file is in a listed class"),
                                       cli=cli_deps, lsp=lsp_deps))
     chk.coverage["B_projects"] = len(projs)
     chk.coverage["B_distribution"] = dist
@@ -880,7 +879,7 @@ def part_C(chk, binary, scratch, res_broken):
                     cls = "qualified-use-unchecked"
                 elif side == "lsp" and c["layout"] == "nested" and c["label"].startswith("from-"):
                     cls = "lsp-module-name"
-                if cls and any(f["id"] == cls and f.get("status") == "known" for f in chk.findings):
+                if cls and listed(chk, cls):
                     hits[cls] = hits.get(cls, 0) + 1
                 else:
                     fails.append(dict(desc, why="%s accepts a reference to a non-pub item of another module" % side, diagnostics=real, classes=[cls]))
@@ -897,7 +896,7 @@ def part_C(chk, binary, scratch, res_broken):
             cls = ("import-last-segment" if multi else
                    "lsp-module-name" if c["layout"] == "nested" and c["label"].startswith("from-") else
                    "nested-base" if nested_base else None)
-            if cls and any(f["id"] == cls and f.get("status") == "known" for f in chk.findings):
+            if cls and listed(chk, cls):
                 hits["verdicts differ: " + cls] = hits.get("verdicts differ: " + cls, 0) + 1
             else:
                 fails.append(dict(desc, why="CLI and LSP disagree on accepting this program", cli=real_cli, lsp=real_lsp))
@@ -918,7 +917,7 @@ def part_C(chk, binary, scratch, res_broken):
             corr_bad.append(dict(desc, which="check_file vs harness replica", impl=[o_chk[:200], o_cc[:200]]))
         if o_chk == "PASS":
             fid = "cycle-silent" if c["what"] == "cycle" else "missing-module-silent"
-            if any(f["id"] == fid and f.get("status") == "known" for f in chk.findings):
+            if listed(chk, fid):
                 hits[fid] = hits.get(fid, 0) + 1
             else:
                 fails.append(dict(desc, why="a project with a %s passes the type check without any diagnostic" % c["what"], result=o_chk))
@@ -982,12 +981,20 @@ def part_S(chk, binary, scratch, res_broken):
         chk.count_case(("spelling", text), nontrivial=True)
         if got.rstrip() == want:
             continue
-        if text.startswith("from ...") and any(f["id"] == "dots-grandparent-syntax" and f.get("status") == "known" for f in chk.findings):
+        if text.startswith("from ...") and listed(chk, "dots-grandparent-syntax"):
             hits["dots-grandparent-syntax"] = hits.get("dots-grandparent-syntax", 0) + 1
         else:
             fails.append({"import": text, "expected": want, "actual": got, "why": "a documented import spelling does not denote the documented import"})
     chk.coverage["S_known_class_hits"] = hits
     return fails, [], 0
+
+
+# findings repaired in /repo (fix: commits): never suppress them again, whatever known_findings.json says
+REPAIRED = {"relative-entry-underflow", "lsp-entry-not-seen"}
+
+
+def listed(chk, fid):
+    return fid not in REPAIRED and listed(chk, fid)
 
 
 def load_findings(chk):
@@ -1033,15 +1040,21 @@ def run(chk):
             fails += f
             corr_bad += cb_
             validated += v
-        # known findings: replay every witness on the real code
+        # known findings: replay every witness on the real code; a repaired one must NOT reproduce
         for f in chk.findings:
-            if f.get("status") != "known" or not f.get("witness", {}).get("cmds"):
+            if not f.get("witness", {}).get("cmds"):
                 continue
             got = replay_witness(binary, scratch, f["witness"])
-            if got == f["witness"]["actual"]:
-                chk.known(f["id"], "%s: %s" % (f["id"], f["summary"]))
-            else:
-                chk.notes.append("known finding %s no longer reproduces: %r" % (f["id"], got))
+            repaired = f.get("status") == "fixed" or f["id"] in REPAIRED
+            if repaired:
+                if got == f["witness"]["actual"]:
+                    fails.append({"why": "the repaired defect %s is back" % f["id"], "summary": f["summary"], "actual": got,
+                                  "replay": dict(f["witness"], actual=None)})
+            elif f.get("status") == "known":
+                if got == f["witness"]["actual"]:
+                    chk.known(f["id"], "%s: %s" % (f["id"], f["summary"]))
+                else:
+                    chk.notes.append("known finding %s no longer reproduces: %r" % (f["id"], got))
     finally:
         shutil.rmtree(scratch, ignore_errors=True)
     chk.coverage["rule"] = ("A: seeded random directory trees (nesting <= 3, .incn/.incan, mod/__init__ files, Cargo.toml and src markers, absolute and cwd-relative "
